@@ -333,6 +333,11 @@ func runC12(c *C12Case) ([]string, error) {
 			}
 		case "leader":
 			if err := cl.RestartLeader(cl.Leaders[op.Leader]); err != nil {
+				if h.IsInconclusive(err) {
+					// DB.Close of the old incarnation did not return (shutdown liveness,
+					// not a C12 subject): no verdict
+					return sortedLabels(labels), err
+				}
 				return sortedLabels(labels), fmt.Errorf("leader %d cannot be restarted on its directory: %v", op.Leader+1, err)
 			}
 			faultSeen = true
